@@ -138,7 +138,10 @@ def rtsafe_(f, x0, bracket, settings):
                              lambda rt, lo, hi: (lo, rt),
                              root, xl, xh)
         i += 1
-        converged = converged | (np.abs(dx) < x_tol) | (np.abs(F) < r_tol) | (F == 0.0)
+        # a bracket whose ends are neighbouring floats cannot be refined further: the root is located to
+        # machine resolution even when x_tol is finer than the float spacing there
+        bracketCollapsed = (np.nextafter(xl, xh) == xh)
+        converged = converged | (np.abs(dx) < x_tol) | (np.abs(F) < r_tol) | (F == 0.0) | bracketCollapsed
         return root, dx, dxOld, F, DF, xl, xh, converged, i
 
     x, dx, _, F, _, _, _, converged, iters = jax.lax.while_loop(cond,
